@@ -87,6 +87,65 @@ def readFrames (limit : Nat) : Nat → List Bytes → List (Except Err Bytes) ×
       let (rs, rest) := readFrames limit k r.rest
       (.ok b :: rs, rest)
 
+/-! ### `readFrom` as a step machine (one `conn.Read` per step), and interleaved readers
+
+Several connections are read concurrently, one `readPipe` goroutine each. The machine below is
+`readFrom` cut at its `conn.Read` calls; `Proofs/FramingInterleave.lean` shows that running it to
+completion is `readFrame`, and that two readers interleaved by ANY schedule end exactly where each
+would end alone – true of the model because a reader's state is its own (header buffer, counters);
+the correspondence run checks that the code has no state shared between connections either. -/
+
+inductive Phase where
+  | hdr  (need : Nat) (acc : Bytes)                -- inside the header loop
+  | body (size need : Nat) (acc : Bytes)           -- inside the content loop
+  | fin  (r : Except Err Bytes) (req : Nat)        -- returned
+  deriving Repr
+
+structure Reader where
+  ph : Phase
+  cs : List Bytes
+
+/-- one loop iteration of `readFrom` (at most one `conn.Read`) -/
+def stepReader (limit : Nat) (r : Reader) : Reader :=
+  match r.ph with
+  | .fin _ _ => r
+  | .hdr 0 acc =>
+    let size := beNat acc
+    if size > limit ∨ size = 0 then { r with ph := .fin (.error .size) headerSize }
+    else { r with ph := .body size size [] }
+  | .hdr (need + 1) acc =>
+    match r.cs with
+    | [] => { ph := .fin (.error .header) headerSize, cs := [] }
+    | ch :: cs =>
+      if ch.length = 0 then { r with cs := cs }
+      else if ch.length ≤ need + 1 then { ph := .hdr (need + 1 - ch.length) (acc ++ ch), cs := cs }
+      else { ph := .hdr 0 (acc ++ ch.take (need + 1)), cs := ch.drop (need + 1) :: cs }
+  | .body size 0 acc => { r with ph := .fin (.ok acc) (max headerSize size) }
+  | .body size (need + 1) acc =>
+    match r.cs with
+    | [] => { ph := .fin (.error .body) (max headerSize size), cs := [] }
+    | ch :: cs =>
+      if ch.length = 0 then { r with cs := cs }
+      else if ch.length ≤ need + 1 then { ph := .body size (need + 1 - ch.length) (acc ++ ch), cs := cs }
+      else { ph := .body size 0 (acc ++ ch.take (need + 1)), cs := ch.drop (need + 1) :: cs }
+
+def initReader (cs : List Bytes) : Reader := { ph := .hdr headerSize [], cs := cs }
+
+def iterReader (limit : Nat) : Nat → Reader → Reader
+  | 0, r => r
+  | k + 1, r => iterReader limit k (stepReader limit r)
+
+/-- two readers on two connections, stepped in the order a schedule dictates (`true` = first reader) -/
+def runInter (limit : Nat) : List Bool → Reader × Reader → Reader × Reader
+  | [], s => s
+  | true :: sch, (a, b) => runInter limit sch (stepReader limit a, b)
+  | false :: sch, (a, b) => runInter limit sch (a, stepReader limit b)
+
+def readerResult (r : Reader) : Option ReadResult :=
+  match r.ph with
+  | .fin out req => some { out := out, rest := r.cs, req := req }
+  | _ => none
+
 /-! ### helpers for the driver -/
 
 /-- split a stream into chunks of the given sizes (cycled); size 0 entries are treated as 1 -/
@@ -152,6 +211,24 @@ def step (limit : Nat) (line : String) : String :=
       let bs := natBE 4 hdr ++ synPayload n a b ++ ex
       showRead true (readFrame limit (chunkBy (2 * bs.length + 2) sz sz bs))
     | _, _, _, _, _, _ => "bad-op"
+  | ["inter", ha, sa, hb, sb, order] =>
+    -- two connections read concurrently under a scripted interleaving: each reader ends where it
+    -- would end alone (Props.C15.interleaving_independent), so the prediction ignores `order`
+    match ofHex ha, csvNat sa, ofHex hb, csvNat sb with
+    | some a, some za, some b, some zb =>
+      let ra := readFrame limit (chunkBy (2 * a.length + 2) za za a)
+      let rb := readFrame limit (chunkBy (2 * b.length + 2) zb zb b)
+      -- cross-check inside the driver: the step machine under this very schedule agrees
+      let sch := order.toList.map (fun c => c == 'a')
+      let fuel := 2 * (a.length + b.length) + 20
+      let full := sch ++ (List.replicate fuel true) ++ (List.replicate fuel false)
+      let (ma, mb) := runInter limit full (initReader (chunkBy (2 * a.length + 2) za za a),
+                                           initReader (chunkBy (2 * b.length + 2) zb zb b))
+      let agree := match readerResult ma, readerResult mb with
+        | some x, some y => showRead false x == showRead false ra && showRead false y == showRead false rb
+        | _, _ => false
+      if agree then s!"A:{showRead false ra} B:{showRead false rb}" else "model-internal-mismatch"
+    | _, _, _, _ => "bad-op"
   | ["wr", n, a, b] => wr n a b "-"
   | ["wr", n, a, b, ks] => wr n a b ks
   | _ => "bad-op"
